@@ -359,7 +359,7 @@ def _run(events: list) -> bool:
         for a in events:
             ev = ALPHA[concretize(a, NA - 1)]
             if not r.apply(ev):
-                return True
+                return track.pruned()
             if r.viol is not None:
                 break
         r.drain()
